@@ -11,7 +11,7 @@ VARIANT = "plain"
 def describe(tier):
     return {
         "rule": "operands are passed both as contiguous arrays and as non-contiguous (strided) views; every ordered pair (A,B) of subsets of a %d-value universe and of the boundary universe %r, through the three "
-        "merge kernels and the three None-aware wrappers (every None/array/empty form, every copy flag); every (long contiguous run of 8..17(33) elements, optionally with one hole) x (1..2 sparse probe elements) pair in both orders - the shape block-skipping optimisations are written for; every list of "
+        "merge kernels and the three None-aware wrappers (every None/array/empty form, every copy flag); every ordered pair of structured sets (dense, evens, odds, multiples of three, shifted, two far blocks) with lengths on either side of 16..128 (..1024 thorough) - block/SIMD boundaries; every (long contiguous run of 8..17(33) elements, optionally with one hole) x (1..2 sparse probe elements) pair in both orders - the shape block-skipping optimisations are written for; every list of "
         "0..k subsets for the multi-way union. A pair case is non-trivial when both operands are non-empty and their ranges "
         "overlap (no shortcut applies); a list case when it has >=2 non-empty arrays. Distinct = distinct (universe, A, B) / list."
         % (K.LOW[tier], K.HIGH[tier]),
@@ -25,7 +25,7 @@ def describe(tier):
 
 
 def blocks(tier):
-    bl = K.pair_blocks(tier) + K.many_blocks(tier) + K.run_blocks(tier)
+    bl = K.pair_blocks(tier) + K.many_blocks(tier) + K.run_blocks(tier) + K.block_blocks(tier)
     return [(f, dict(p, tier=tier)) for f, p in bl]
 
 
@@ -101,11 +101,12 @@ def _wrap(acc, site, case, thunk, want):
             acc.violation(site, case, msg)
 
 
-def check_many(lst, acc, fam):
+def check_many(lst, acc, fam, label=None):
     so = _so()
+    lst = [K.expand(x) for x in lst]
     arrays = [K.arr(x) for x in lst]
     want = sorted(set().union(*[set(x) for x in lst])) if lst else []
-    case = {"fam": fam, "arrays": [list(x) for x in lst]}
+    case = {"fam": fam, "arrays": label if label is not None else [list(x) for x in lst]}
     try:
         res = so.set_union_merge_many(arrays)
     except Exception as e:  # noqa
@@ -116,12 +117,13 @@ def check_many(lst, acc, fam):
         acc.violation("kernel:union_many", case, msg)
 
 
-def check_kernels_only(A, B, acc, uname, layouts=("contiguous", "strided")):
+def check_kernels_only(A, B, acc, uname, layouts=("contiguous", "strided"), label=None):
     so = _so()
+    A, B = K.expand(A), K.expand(B)
     sA, sB = set(A), set(B)
     for layout in layouts:
         a, b = (K.arr(A), K.arr(B)) if layout == "contiguous" else (K.strided(A), K.strided(B))
-        case = {"u": uname, "A": A, "B": B, "layout": layout}
+        case = {"u": uname, "A": label[0] if label else A, "B": label[1] if label else B, "layout": layout}
         for op, fn, want in (("intersect", so.set_intersect_merge_np, sA & sB), ("union", so.set_union_merge_np, sA | sB), ("difference", so.set_difference_merge_np, sA - sB)):
             try:
                 res = fn(a, b)
@@ -142,6 +144,19 @@ def run_block(family, p, acc):
                 check_kernels_only(A, B, acc, "runs")
                 check_kernels_only(B, A, acc, "runs")
                 acc.case(("runs", tuple(A), tuple(B)), nontrivial=K.overlapping(A, B), outcome=("runs", len(set(A) & set(B))), sample=lambda: {"universe": "runs", "A": A, "B": B})
+        return
+    if family == "blocked":
+        descs = K.block_descs(tier)
+        for da in descs[p["a0"]:p["a1"]]:
+            A = K.expand(da)
+            for db in descs:
+                B = K.expand(db)
+                check_kernels_only(A, B, acc, "blocked", layouts=("contiguous",), label=(da, db))
+                acc.case(("blocked", da["pat"], da["n"], db["pat"], db["n"]), nontrivial=True, outcome=("blocked", da["pat"], db["pat"]), sample=lambda: {"universe": "blocked", "A": da, "B": db})
+            for db in descs[:: 7]:
+                for dc in descs[3:: 11]:
+                    lst = [A, K.expand(db), K.expand(dc)]
+                    check_many(lst, acc, "blocked", label=[da, db, dc])
         return
     if family == "pairs":
         uni = K.universes(tier)[p["u"]]
@@ -166,7 +181,7 @@ def replay(case, site=None):
     acc = Acc(ID, [], stop_at_first=False)
     if "arrays" in case:
         check_many(case["arrays"], acc, case.get("fam"))
-    elif case.get("u") == "runs" or case.get("layout") == "strided":
+    elif case.get("u") in ("runs", "blocked") or case.get("layout") == "strided":
         check_kernels_only(case["A"], case["B"], acc, case.get("u"))
     else:
         check_pair(case["A"], case["B"], acc, case.get("u"))
